@@ -1260,7 +1260,7 @@ class BasicCircleStatement(BasicRunCall):
                     expr_r,
                     expr_color
                     if expr_color is not None
-                    else BasicRunCall(
+                    else BasicFunctionCall(
                         "float", BasicExpressionList([BasicVar("display.hfore")])
                     ),
                     BasicLiteral(1.0),
@@ -1313,7 +1313,7 @@ class BasicEllipseStatement(BasicRunCall):
                     circle.expr_r,
                     circle.expr_color
                     if circle.expr_color is not None
-                    else BasicRunCall(
+                    else BasicFunctionCall(
                         "float", BasicExpressionList([BasicVar("display.hfore")])
                     ),
                     expr_ratio,
@@ -1353,7 +1353,7 @@ class BasicArcStatement(BasicRunCall):
                     ellipse.circle.expr_r,
                     ellipse.circle.expr_color
                     if ellipse.circle.expr_color is not None
-                    else BasicRunCall(
+                    else BasicFunctionCall(
                         "float", BasicExpressionList([BasicVar("display.hfore")])
                     ),
                     ellipse.expr_ratio,
